@@ -62,12 +62,20 @@ class HandlerCollection:
 
     current = ContextVar("HandlerCollection.current", default=None)
 
-    def __init__(self, handler_pairs=None):
+    def __init__(self, handler_pairs=None, left=(), inside=False):
         self.handler_pairs = list(handler_pairs or [])
+        # Whether this is what the body of an instrumented call runs with
+        self.inside = inside
+        # Handlers of overlays that ended while this collection was current
+        # but are not in it (they were installed for the caller of a running
+        # generator after it had started): see proceed._leave
+        self.left = list(left)
 
     def plus(self, handler_pairs):
         """Clone this collection with additional (selector, accumulator) pairs."""
-        return type(self)(self.handler_pairs + handler_pairs)
+        return type(self)(
+            self.handler_pairs + handler_pairs, self.left, self.inside
+        )
 
     def proceed(self, fn):
         """Proceed into a call to fn with this collection.
@@ -117,7 +125,7 @@ class HandlerCollection:
                 next_selectors.extend(
                     (child, acc) for child in selector.children
                 )
-        rval = HandlerCollection(next_selectors)
+        rval = HandlerCollection(next_selectors, inside=True)
         return itor, rval
 
 
@@ -157,6 +165,9 @@ class proceed:
             before = {id(acc) for _, acc in self.inner.handler_pairs}
             after = curr.handler_pairs if curr is not None else []
             gone = before - {id(acc) for _, acc in after}
+            if curr is not None and curr.left:
+                gone.update(id(acc) for acc in curr.left)
+                curr.left = []
             new = [pair for pair in after if id(pair[1]) not in before]
             kept = self.outer.handler_pairs if self.outer is not None else []
             if new or any(id(acc) in gone for _, acc in kept):
@@ -168,7 +179,7 @@ class proceed:
     def suspend(self):
         """The function is a generator and is about to yield."""
         if not self.suspended:
-            self.inner = self._leave() or HandlerCollection([])
+            self.inner = self._leave() or HandlerCollection([], inside=True)
             self.suspended = True
 
     def resume(self):
@@ -226,13 +237,19 @@ class BaseOverlay:
             # so that overlays and global probes may end in any order.
             curr = HandlerCollection.current.get()
             pairs = list(curr.handler_pairs) if curr is not None else []
+            left = list(curr.left) if curr is not None else []
             for handler in self.handlers:
                 for i in range(len(pairs) - 1, -1, -1):
                     if pairs[i][1] is handler:
                         del pairs[i]
                         break
+                else:
+                    left.append(handler)
+            inside = curr is not None and curr.inside
             HandlerCollection.current.set(
-                HandlerCollection(pairs) if pairs else None
+                HandlerCollection(pairs, left, inside)
+                if pairs or (left and inside)
+                else None
             )
 
 
